@@ -1164,8 +1164,8 @@ def run(chk: core.Check) -> None:
             for s in done:
                 cfg, prolog = s['cfg'], list(s['prolog'])
                 if prolog:            # children of the document node before the root: representable with lxml only
-                    if chk.tier == 'quick' and cfg not in ('default', 'base-abs'):
-                        continue
+                    if cfg.startswith('origin-') or (chk.tier == 'quick' and cfg not in ('default', 'base-abs')):
+                        continue      # (the source text of the origin-* configurations has no prolog)
                     combos = [('lxml', 'plain', 'doc')]
                 else:
                     variants = (('plain', 'ns', 'markup', 'nonnfc', 'big8k', 'big64k', 'special') if cfg == 'default'
